@@ -145,6 +145,11 @@ void h_cfg_free(void)
 	cfg->title = nondet_bool() ? str1() : NULL; cfg->filename = nondet_bool() ? str1() : NULL; cfg->comment = nondet_bool() ? str1() : NULL;
 	cfg->opts = cfgv_alloc(2 * sizeof(cfg_opt_t)); memset(cfg->opts, 0, 2 * sizeof(cfg_opt_t));
 	cfg->opts[0].name = str1(); cfg->opts[0].type = CFGT_INT;
+	/* a root owns its search path list (sections share it and are handed over with the pointer cleared) */
+	if (root && nondet_bool()) {
+		cfg_searchpath_t *a = cfgv_alloc(sizeof *a), *b = cfgv_alloc(sizeof *b);
+		a->dir = str1(); a->next = b; b->dir = str1(); b->next = NULL; cfg->path = a;
+	}
 	g_destroy_calls = 0;
 	rc = cfg_free(cfg);
 	CHECK("C07", rc == CFG_SUCCESS, "releasing a context succeeds");
